@@ -514,8 +514,18 @@ class SymStruct:
                     lo, hi = (-(1 << (8 * size - 1)), (1 << (8 * size - 1)) - 1) if ch in _SIGNED else (0, (1 << (8 * size)) - 1)
                     if not bool(SymBool(z3.And(v.t >= lo, v.t <= hi))):
                         raise _struct.error("'%s' format requires %d <= number <= %d" % (ch, lo, hi))
-                    u = v.t % z3.IntVal(1 << (8 * size))  # two's complement
-                    bs = [SymNum(z3.simplify((u / z3.IntVal(1 << (8 * (size - 1 - k)))) % 256)) for k in range(size)]
+                    # bytes as fresh variables tied to the value by ONE linear equation
+                    # (definitional: the base-256 digits of the two's complement are unique)
+                    cx = ctx()
+                    bs = [cx.fresh_int("pk") for _ in range(size)]
+                    total = z3.IntVal(0)
+                    for b in bs:
+                        cx.assume_term(z3.And(b.t >= 0, b.t <= 255))
+                        total = total * 256 + b.t
+                    if ch in _SIGNED:
+                        cx.assume_term(total == z3.If(v.t < 0, v.t + z3.IntVal(1 << (8 * size)), v.t))
+                    else:
+                        cx.assume_term(total == v.t)
                     if order == "<":
                         bs.reverse()
                     out.extend(bs)
@@ -608,3 +618,22 @@ def std(*names, **extra):
         d[n] = STD[n] if n in STD else TEXTTOOLS[n]
     d.update(extra)
     return d
+
+
+# --------------------------------------------------------------------------
+# commonly needed shadow modules (helpers that the targets import)
+
+
+def round_tools():
+    from . import loader
+
+    return loader.shadow("fontTools.misc.roundTools", std("int", "float"), cache_key="std")
+
+
+def fixed_tools():
+    from . import loader
+
+    rt = round_tools()
+    return loader.shadow("fontTools.misc.fixedTools",
+                         std("int", "float", "len", otRound=rt.otRound,
+                             nearestMultipleShortestRepr=rt.nearestMultipleShortestRepr), cache_key="std")
